@@ -312,6 +312,9 @@ def units(tier):
                     if tier == "quick" and cn not in ("RadioSignal", "BasebandSignal") and (c != 1 or al == "center"):
                         continue
                     us.append(FreqSplit(cn, nchan, (c,), al, next(rates), axis=("freq", 1)[c % 2]))
+            if nchan == 2:
+                us.append(FreqSplit(cn, 2, (1,), "bottom", next(rates), mode="order"))
+                us.append(FreqSplit(cn, 2, (1,), "center", next(rates), mode="order", axis=1))
             if nchan >= 3:
                 us.append(FreqSplit(cn, nchan, (1, 2), "bottom", next(rates), mode="ok"))
                 us.append(FreqSplit(cn, nchan, (1, 2), "top", next(rates), mode="gap"))
